@@ -59,11 +59,15 @@ class Function:
         nd = self.nodes[i]
         return "%s:%s" % (nd.get("f") or os.path.basename(self.file), nd.get("l"))
 
+    EXPLICIT_CASTS = {"CStyleCastExpr", "CXXStaticCastExpr", "CXXFunctionalCastExpr", "CXXReinterpretCastExpr"}
+
     def strip(self, i, casts=True):
         """Skip wrappers (and, by default, casts) down to the meaningful expression."""
         while i is not None and i >= 0:
             nd = self.nodes[i]
             k = nd["k"]
+            if getattr(self, "keep_casts", False) and k in self.EXPLICIT_CASTS and nd.get("iw"):
+                return i
             if k in WRAPPERS or (casts and k in CASTS):
                 ks = self.kids(i)
                 if not ks:
@@ -117,6 +121,9 @@ class Function:
         k = nd["k"]
         if "cv" in nd and k not in ("DeclRefExpr", "MemberExpr"):
             return ("const", int(nd["cv"]))
+        if getattr(self, "keep_casts", False) and k in self.EXPLICIT_CASTS:
+            ks = self.kids(i)
+            return ("cast", nd.get("ct"), self.term(ks[0]) if ks else ("?",))
         if k in ("IntegerLiteral", "CharacterLiteral", "CXXBoolLiteralExpr"):
             return ("const", int(nd["v"]))
         if k == "DeclRefExpr":
@@ -229,6 +236,8 @@ def fmt_term(t):
         return "%s.size()" % fmt_term(t[1])
     if h == "max_size":
         return "max_size()"
+    if h == "cast":
+        return "(%s)%s" % (t[1], fmt_term(t[2]))
     if h == "cond":
         return "(%s ? %s : %s)" % (fmt_term(t[1]), fmt_term(t[2]), fmt_term(t[3]))
     if h == "ctor":
